@@ -1,8 +1,14 @@
 (* C18 — derived specifications mean what was declared and are internally consistent.  Statements only.
    [derive] (Model/Derive.v) mirrors specification-derive/src/{ast,attr,pathing}.rs on an abstract syntax of enum
    declarations (variants with their attributes in source order); [with_globals d] = d followed by the Crc32 and Void
-   variants the macro appends.  rustc, syn and quote are not modelled (see props/c18.py TRUSTED). *)
-From Ebml Require Import Base Tools Spec Reader Derive Proofs.Tactics Proofs.DeriveProofs.
+   variants the macro appends.  rustc, syn and quote are not modelled (see props/c18.py TRUSTED).
+   Scope of "no Bad-specification panic": the theorems below cover the READER's implied-parent seeding (C18_no_implied_parent_panic)
+   and the generated constructors/accessors of the declared variants.  The WRITER still panics, for an accepted specification, when it is
+   handed RawTag(id, _) with an id that the specification declares with a type other than Binary: C18_writer_raw_panics.
+   "Accepted" is characterised exactly by C18_accepted_iff.  Both front-ends run the same code by definition of [easy_derive]
+   (C18_easy_lower describes the lowering); of the attributes, only an unrecognised data_type VALUE is rejected — attributes the
+   macro does not know ([AOther]) are ignored, as in the Rust code. *)
+From Ebml Require Import Base Tools Spec Writer Reader Derive Proofs.Tactics Proofs.DeriveProofs Proofs.AuditMisc.
 
 (* ---- accepted declarations: the table is exactly what was declared ------------------------------------------- *)
 
@@ -44,11 +50,32 @@ Proof. exact accepted_globals. Qed.
 Theorem C18_spec_ok : forall d sp, derive d = Some sp -> spec_ok sp.
 Proof. exact accepted_spec_ok. Qed.
 
-Theorem C18_no_bad_spec_panic : forall d sp, derive d = Some sp -> forall id, implied_stack sp (get_path sp id) <> None.
+Theorem C18_no_implied_parent_panic : forall d sp, derive d = Some sp -> forall id, implied_stack sp (get_path sp id) <> None.
 Proof. exact accepted_implied. Qed.
 
 Theorem C18_spec_ok_suffices : forall sp, spec_ok sp -> forall id, implied_stack sp (get_path sp id) <> None.
 Proof. exact spec_ok_implied. Qed.
+
+(* NOT covered — the writer: a RawTag value answers as_binary only, so handing the writer RawTag(id, _) with an id the specification
+   declares as anything but Binary reaches `tag.as_<type>().unwrap_or_else(|| panic!("Bad specification implementation ..."))`
+   (/repo/src/tag_writer.rs: line 360/367 as_master for a declared Master, lines 404-420 for the other types; RawTag is a public
+   variant, the derive's as_binary arm is specification-derive/src/attr.rs:355).  The writer model has the same panic.  With the
+   repository's test specification [test_sp]: RawTag(0x4101 declared UnsignedInt) inside its parent 0x81 and RawTag(0x81 declared
+   Master) panic; RawTag(0xa1 declared Binary) does not (it is refused as misplaced at the root); an undeclared id is written *)
+Example C18_writer_raw_panics :
+  snd (buffer_tag test_sp (TElem 0x4101 (VRaw [1])) o_default (fst (buffer_tag test_sp (TStart 0x81) o_default (w_init [])))) = WPanic /\
+  snd (buffer_tag test_sp (TElem 0x81 (VRaw [])) o_default (w_init [])) = WPanic /\
+  snd (buffer_tag test_sp (TElem 0xa1 (VRaw [1])) o_default (w_init [])) = WErr (EUnexpectedTag 0xa1 []) /\
+  buffer_tag test_sp (TElem 0x4242 (VRaw [1])) o_default (w_init []) =
+    ({| w_open := []; w_buf := [0x42; 0x42; 0x81; 1]; w_dest := []; w_script := [] |}, WOk).
+Proof. exact writer_raw_panics. Qed.
+
+(* in general, for every specification: buffering RawTag(id, data) panics whenever id is declared with a type ty other than Binary, the
+   unknown-size option is off, and (unless ty is Master, which panics before validation) the element is allowed where it is written *)
+Theorem C18_writer_raw_panic_general : forall sp id data o st ty, get_type sp id = Some ty -> ty <> DBinary -> o_unknown o = false ->
+  (ty = DMaster \/ w_validate sp id (w_open st) = true) ->
+  snd (buffer_tag sp (TElem id (VRaw data)) o st) = WPanic.
+Proof. exact writer_raw_panic_general. Qed.
 
 (* get_<ty>_tag(id, _) constructs a tag iff the table gives id the type ty *)
 Theorem C18_ctor : forall d pvs, derive_full d = Some pvs -> forall ty id,
@@ -84,6 +111,31 @@ Theorem C18_easy_lower : forall ev v, easy_lower ev = Some v ->
   exists pre, ev_path ev = pre ++ [PPIdent (v_name v)] /\
     v_attrs v = [AId (ev_id ev); AType (ev_ty ev)] ++ match pre with [] => [] | _ => [APath pre] end.
 Proof. exact easy_lower_spec. Qed.
+
+(* ---- acceptance, exactly -------------------------------------------------------------------------------------------- *)
+
+(* the macro turns the declaration d into the parsed variant list pvs iff (1) pvs lists, in order, the variants of d followed by Crc32
+   and Void, each with the same name and [variant_ok]: exactly one #[id], fitting u64; exactly one #[data_type], of a recognised type;
+   at most one #[doc_path], and then non-empty with [parts_ok]: every identifier is a variant name of the enum, every placeholder bound
+   fits u64, no placeholder has maximum 0, no two placeholders are adjacent; (2) the ids are pairwise distinct; (3) [parent_ok]: for
+   every variant with a path that contains an identifier, the last identifier names (the last variant of that name wins) a variant of
+   type Master whose own declared path (empty if none) is exactly the part of the path before that identifier *)
+Theorem C18_derive_full_iff : forall d pvs, derive_full d = Some pvs <->
+  Forall2 (variant_ok (names_of d)) (with_globals d) pvs /\ NoDup (map pv_id pvs) /\ Forall (parent_ok pvs) pvs.
+Proof. exact derive_full_iff. Qed.
+
+(* the macro accepts d iff such a list exists *)
+Theorem C18_accepted_iff : forall d, derive d <> None <->
+  exists pvs, Forall2 (variant_ok (names_of d)) (with_globals d) pvs /\ NoDup (map pv_id pvs) /\ Forall (parent_ok pvs) pvs.
+Proof. exact accepted_iff. Qed.
+
+(* the ingredients: the attribute scan of one variant, and the well-formedness of a path, as readable predicates *)
+Theorem C18_variant_ok_iff : forall names v pv, variant_from_syn names v = Some pv <-> variant_ok names v pv.
+Proof. exact from_syn_iff. Qed.
+Theorem C18_parts_ok_iff : forall names p, check_parts names false p = true <-> parts_ok names p.
+Proof. exact check_parts_iff. Qed.
+Theorem C18_parent_ok_iff : forall pvs, validate_all pvs = true <-> Forall (parent_ok pvs) pvs.
+Proof. exact validate_all_iff. Qed.
 
 (* ---- rejections: one theorem per malformation class, for arbitrary declarations containing it ---------------- *)
 
